@@ -180,8 +180,14 @@ class C07(PropertyCheck):
             "unset, N<=3, every eos index -V..V-1 or unset, batch_size set/unset, initial state "
             "selecting the tables), dist (support, expand=False, log_prob of every support row as "
             "long/float tensors, validation and support.check of rows of every length, validate_args "
-            "True/None/False), sample (sample shapes (), (M,), (M1,M2), empty, batch shape set/unset, "
-            "cache on/off with hit/other value/other shape/cleared, max_iters unset), greedy (all "
+            "True/None/False), sample (sample shapes (), (M,), (M1,M2), (M1,M2,M3), empty, batch shape set/unset, "
+            "max_iters unset; a generated call script run on a caching and on a never-caching object: "
+            "values of every sample-shape class built from the drawn paths (the sample, an equal copy, "
+            "rotated, a part, a single path, the same rows in another shape, repeated draws, empty; "
+            "long/int32/float32/float64, four memory layouts, batch elements swapped) scored twice, with "
+            "another value in between, after clear_cache, after a new sample(); tensors the caller edits "
+            "in place between the calls (a scored value, the tensor sample() returned, returned scores); "
+            "shape and values of every answer compared), greedy (all "
             "blank indices, lens, layouts, is_probs both ways), ctor (argument errors); tensor inputs "
             "in float32/float64 and four memory layouts; non-finite garbage (-inf rows, single -inf/+inf/NaN, "
             "NaN rows, mixtures) in every region whose scores are ignored (out-of-vocabulary positions, "
@@ -190,7 +196,8 @@ class C07(PropertyCheck):
             "language models that build new state dictionaries / add their keys to the dictionary they are "
             "handed / store the updated state in it / update their state tensors in place, on every stream "
             "that calls the model more than once per object (walk twice, log_prob twice, sample after "
-            "log_prob, the sample/log_prob/clear_cache sequences, support + values), the caller's "
+            "log_prob, the sample/log_prob/clear_cache scripts, support + values; walk and dist with "
+            "cache_samples on and off), the caller's "
             "initial_state compared before/after. non-trivial: an eos strictly inside the "
             "tensor / a path that ended before the step limit / >= 1 repeated or blank frame removed; "
             "distinct by the full case")
@@ -782,21 +789,37 @@ class C07(PropertyCheck):
     def lp_model(o):
         return {"error": o} if isinstance(o, str) else o
 
+    def lpraise_variant(self, impl, model):
+        """which language-model contract the implementation follows: log_prob hands the value to the
+        model as it is (code as pinned: an out-of-vocabulary token anywhere in hist[:-1] raises), or
+        with everything after the first eos replaced by eos (proposed repair: only a token before the
+        first eos raises). Decided by the never-caching object; -> the model reply of that variant"""
+        same = lambda xs, ys: len(xs) == len(ys) and all(self.lp_same(x, self.lp_model(y)) for x, y in zip(xs, ys))
+        if not self.err(impl) and not same(impl["fresh"], model["spec"]["reference"]) \
+                and same(impl["fresh"], model["filled"]["spec"]["reference"]):
+            return model["filled"]
+        return model
+
     def cmp_lpraise(self, case, impl, model):
         if self.err(impl):
             return [f"implementation raised {impl['error']}: {impl.get('message')}"]
-        m = {k: [self.lp_model(o) for o in v] for k, v in model["model"].items()}
-        ref = [self.lp_model(o) for o in model["spec"]["reference"]]
-        if m["repaired_cached"] != ref or m["repaired_fresh"] != ref or m["pinned_fresh"] != ref:
-            raise RuntimeError("internal: the repaired / cache-free state machine differs from the reference "
-                               "(C07_log_prob_cache)")
-        if model["flags"]["scorable"] and m["pinned_cached"] != ref:
-            raise RuntimeError("internal: pinned state machine differs from the reference although no call "
-                               "reaches a raising scorer (C07_log_prob_cache_pinned_partial)")
+        for var in (model, model["filled"]):
+            m = {k: [self.lp_model(o) for o in v] for k, v in var["model"].items()}
+            ref = [self.lp_model(o) for o in var["spec"]["reference"]]
+            if m["repaired_cached"] != ref or m["repaired_fresh"] != ref or m["pinned_fresh"] != ref:
+                raise RuntimeError("internal: the repaired / cache-free state machine differs from the reference "
+                                   "(C07_log_prob_cache)")
+            if var["flags"]["scorable"] and m["pinned_cached"] != ref:
+                raise RuntimeError("internal: pinned state machine differs from the reference although no call "
+                                   "reaches a raising scorer (C07_log_prob_cache_pinned_partial)")
+        var = self.lpraise_variant(impl, model)
+        m = {k: [self.lp_model(o) for o in v] for k, v in var["model"].items()}
         out = []
         same = lambda xs, ys: len(xs) == len(ys) and all(self.lp_same(x, y) for x, y in zip(xs, ys))
         if not same(impl["fresh"], m["pinned_fresh"]):
-            out.append(f"cache_samples=False: impl={impl['fresh']} model={m['pinned_fresh']}")
+            out.append(f"cache_samples=False: impl={impl['fresh']} model={m['pinned_fresh']} "
+                       f"(model with fill_after_eos before the language model: "
+                       f"{model['filled']['model']['pinned_fresh']})")
         # the caching object follows the pinned write order (samples cached before scoring) or the repaired one
         if not same(impl["cached"], m["pinned_cached"]) and not same(impl["cached"], m["repaired_cached"]):
             out.append(f"cache_samples=True: impl={impl['cached']} model(pinned order)={m['pinned_cached']} "
@@ -806,8 +829,9 @@ class C07(PropertyCheck):
     def pred_lpraise(self, case, impl, model):
         if self.err(impl):
             return [(f"log_prob sequence raised {impl['error']}: {impl.get('message')}", None)]
-        ref = [self.lp_model(o) for o in model["spec"]["reference"]]
-        pinned = [self.lp_model(o) for o in model["model"]["pinned_cached"]]
+        var = self.lpraise_variant(impl, model)
+        ref = [self.lp_model(o) for o in var["spec"]["reference"]]
+        pinned = [self.lp_model(o) for o in var["model"]["pinned_cached"]]
         fails = []
         ops = [op for op in self.LPRAISE_TRACES[case["trace"]] if op != "c"]
         for key in ("fresh", "cached"):
@@ -2155,7 +2179,8 @@ class C07(PropertyCheck):
                 t.add("sample.script.caller_edits_returned_scores_in_place")
             else:
                 cont = tens[op["ref"]]
-                rank = {0: "()", 1: "(M,)"}.get(len(cont[1]), "(M1,M2,..)")
+                rank = {0: "()", 1: "(M,)"}.get(len(cont[1]), "(M1,M2,..)") + \
+                    (", no batch shape" if N is None else ", batch shape")
                 if not prodl(list(cont[1])):
                     t.add(f"sample.script.log_prob[sample shape {rank}, empty]")
                     continue
